@@ -82,13 +82,16 @@ ExprTrees ==
     \cup {Wrap(Base(<<CDefine(<<Item(FALSE, "v", e), Item(TRUE, "gv", P("v"))>>), CContent(Alt(<<P("v"), P("s")>>), FALSE)>>))
            \o <<El("i", <<>>, <<CContent(Alt(<<P("v"), P("gv"), S(<<Lit("none")>>)>>), FALSE)>>, <<>>)>> : e \in ExprSet}
     \cup {Wrap(Base(<<CRepeat("x", e), CContent(Alt(<<P("x"), S(<<Lit("-")>>)>>), FALSE)>>)) : e \in ExprSet \cup {P("holes"), P("one"), P("recs"), P("rows"), P("eit")}}
-    \cup {Wrap(Base(<<CRepeat("x", r), CContent(e, FALSE)>>)) : e \in RepeatVarSet, r \in {P("lst"), P("it"), P("one"), P("s")}}
+    \cup {Wrap(Base(<<CRepeat("x", r), CContent(e, FALSE)>>)) : e \in RepeatVarSet, r \in {P("lst"), P("one"), P("s")}}
+    \* (the `length` of an iterator repeat is sys.maxsize: outside E.4 and outside TLC's integers)
+    \cup {Wrap(Base(<<CRepeat("x", P("it")), CContent(e, FALSE)>>)) : e \in RepeatVarSet \ {P("repeat/x/length")}}
     \cup {Wrap(Base(<<CRepeat("x", P("recs")), CContent(e, FALSE)>>)) :
               e \in {Alt(<<P("x/label"), P("default")>>), Alt(<<P("x/label"), S(<<Lit("item "), Sub(P("repeat/x/number"))>>)>>),
                      Alt(<<P("x/label"), P("nothing")>>), P("x/label")}}
 
 \* ---- family one: every subset of the six commands ---------------------------------------------------------
-DefineOpts1 == Opt({CDefine(<<Item(FALSE, "v", P("lt"))>>), CDefine(<<Item(TRUE, "gv", P("n")), Item(FALSE, "v", Alt(<<P("gv"), P("s")>>))>>)})
+Define1a == CDefine(<<Item(FALSE, "v", P("lt"))>>)
+Define1b == CDefine(<<Item(TRUE, "gv", P("n")), Item(FALSE, "v", Alt(<<P("gv"), P("s")>>))>>)
 CondOpts1   == Opt({CCondition(P("s")), CCondition(P("z")), CCondition(Not(P("v")))})
 RepeatOpts1 == Opt({CRepeat("x", P(p)) : p \in {"lst", "el", "default", "holes", "it", "nul"}})
 XorV == Alt(<<P("x"), P("v"), P("s")>>)
@@ -99,8 +102,9 @@ AttrOpts1   == Opt({CAttributes(<<Item(FALSE, "id", Alt(<<P("x"), P("s")>>)), It
                     CAttributes(<<Item(FALSE, "class", Alt(<<P("v"), P("lt")>>))>>)})
 OmitOpts1   == Opt({COmit(NoE), COmit(P("z")), COmit(Alt(<<P("x"), P("s")>>))})
 Tail1Sib == El("i", <<>>, <<CContent(Alt(<<P("v"), P("gv"), P("x"), S(<<Lit("none")>>)>>), FALSE)>>, <<TextN("o")>>)
-OneTrees == {Wrap(Base(d \o c \o r \o ct \o a \o o)) \o <<Tail1Sib>> :
-                d \in DefineOpts1, c \in CondOpts1, r \in RepeatOpts1, ct \in ContentOpts1, a \in AttrOpts1, o \in OmitOpts1}
+\* (split by the define option: the model checker runs one process per part)
+OneTrees(dopts) == {Wrap(Base(d \o c \o r \o ct \o a \o o)) \o <<Tail1Sib>> :
+                d \in dopts, c \in CondOpts1, r \in RepeatOpts1, ct \in ContentOpts1, a \in AttrOpts1, o \in OmitOpts1}
 
 \* ---- family void: an element without end tag ------------------------------------------------------------------
 VoidTrees == {<<TextN("["), El("img", <<At("src", "u"), At("alt", "a<")>>, Written(d \o c \o r \o ct \o a \o o), <<>>), TextN("]")>> :
@@ -113,7 +117,8 @@ VoidTrees == {<<TextN("["), El("img", <<At("src", "u"), At("alt", "a<")>>, Writt
                        El("hr", <<At("class", "k")>>, <<CCondition(c)>>, <<>>), RawN("<!-- c -->")>>)>> : c \in {P("s"), P("z")}}
 
 \* ---- family nest: parent x child ---------------------------------------------------------------------------------
-PDefine  == Opt({CDefine(<<Item(FALSE, "v", P("s"))>>), CDefine(<<Item(TRUE, "gv", P("s"))>>)})
+PDefineA == CDefine(<<Item(FALSE, "v", P("s"))>>)
+PDefineB == CDefine(<<Item(TRUE, "gv", P("s"))>>)
 PCond    == Opt({CCondition(P("n")), CCondition(P("z"))})
 PRepeat  == Opt({CRepeat("r", P("rows")), CRepeat("r", P("lst")), CRepeat("r", P("el"))})
 PContent == Opt({CContent(P("default"), FALSE), CContent(P("s"), FALSE)})
@@ -129,12 +134,12 @@ NestSib  == El("i", <<>>, <<CContent(Alt(<<P("v"), P("gv"), P("r"), P("c"), S(<<
 NestTree(ptal, ktal) ==
     <<El("div", <<At("id", "d")>>, Written(ptal),
          <<TextN("("), El("span", <<At("id", "k")>>, Written(ktal), <<TextN("k")>>), TextN(")")>>), NestSib>>
-NestTreesFull == {NestTree(pd \o pc \o pr \o pct \o pa \o po, kd \o kc \o kr \o kct \o ka) :
-                    pd \in PDefine, pc \in PCond, pr \in PRepeat, pct \in PContent, pa \in PAttr, po \in POmit,
+NestTreesFull(pdopts) == {NestTree(pd \o pc \o pr \o pct \o pa \o po, kd \o kc \o kr \o kct \o ka) :
+                    pd \in pdopts, pc \in PCond, pr \in PRepeat, pct \in PContent, pa \in PAttr, po \in POmit,
                     kd \in KDefine, kc \in KCond, kr \in KRepeat, kct \in KContent, ka \in KAttr}
 \* quick tier: the parent always repeats or defines; the child has at least one command
-NestTreesQuick == {NestTree(pd \o pc \o pr \o pct \o pa, kd \o kc \o kr \o kct \o ka) :
-                    pd \in PDefine, pc \in Opt({CCondition(P("n"))}), pr \in Opt({CRepeat("r", P("rows")), CRepeat("r", P("lst"))}),
+NestTreesQuick(pdopts) == {NestTree(pd \o pc \o pr \o pct \o pa, kd \o kc \o kr \o kct \o ka) :
+                    pd \in pdopts, pc \in Opt({CCondition(P("n"))}), pr \in Opt({CRepeat("r", P("rows")), CRepeat("r", P("lst"))}),
                     pct \in Opt({CContent(P("default"), FALSE)}), pa \in PAttr,
                     kd \in KDefine, kc \in KCond, kr \in KRepeat, kct \in KContent, ka \in KAttr}
 \* three levels: repeat in repeat in repeat, define shadowing at every level (depth 3)
@@ -154,19 +159,22 @@ MacroEl(mtal, stal) ==
 Fill1(ftal) == El("i", <<>>, Written(<<CFillSlot("s1")>> \o ftal), <<TextN("F1")>>)
 Fill2 == El("em", <<At("id", "f")>>, <<CFillSlot("s2")>>, <<TextN("F2")>>)
 UseEl(ue, utal, fills) == El("p", <<At("id", "u")>>, Written(<<CUseMacro(ue)>> \o utal), <<TextN("junk")>> \o fills)
+UseNone == {P("nothing"), P("macros/zz")}
 UseExprs == {P("macros/m1"), Alt(<<P("macros/zz"), P("macros/m1")>>), P("nothing"), P("default"), P("s"), P("macros/zz")}
 MacroTal == Opt({CDefine(<<Item(FALSE, "v", P("lt"))>>), CRepeat("x", P("lst")), CCondition(P("z"))})
 SlotTal  == Opt({CContent(Alt(<<P("x"), P("v"), P("s")>>), FALSE), CCondition(P("z"))})
 FillTal  == Opt({CContent(Alt(<<P("x"), P("v"), P("n")>>), FALSE), CRepeat("y", P("one"))})
 UseTal   == Opt({CContent(P("s"), FALSE), CDefine(<<Item(TRUE, "gv", P("n"))>>), CRepeat("x", P("one"))})
 MetalSib == El("i", <<>>, <<CContent(Alt(<<P("v"), P("gv"), P("x"), S(<<Lit("none")>>)>>), FALSE)>>, <<>>)
-MetalTrees ==
+MetalGen(firsts, ues, uts) ==
     {(IF first THEN <<MacroEl(mt, stl), TextN("/")>> ELSE <<>>) \o <<UseEl(ue, ut, fl), TextN("/")>>
        \o (IF first THEN <<>> ELSE <<MacroEl(mt, stl)>>) \o <<MetalSib>> :
-        first \in BOOLEAN, mt \in MacroTal, stl \in SlotTal, ue \in UseExprs, ut \in UseTal,
+        first \in firsts, mt \in MacroTal, stl \in SlotTal, ue \in ues, ut \in uts,
         fl \in {<<>>, <<Fill2>>} \cup {<<Fill1(ft)>> : ft \in FillTal} \cup {<<Fill1(ft), Fill2>> : ft \in FillTal}}
-    \* two uses of the same macro with different fillers, and a template value as structured content
-    \cup {<<MacroEl(<<>>, <<>>), UseEl(P("macros/m1"), <<>>, <<Fill1(<<>>)>>), UseEl(P("macros/m1"), <<>>, <<Fill2>>),
+\* E.4 is silent on the other commands of an element whose use-macro evaluates to nothing
+MetalTrees(firsts) == MetalGen(firsts, UseExprs \ UseNone, UseTal) \cup MetalGen(firsts, UseNone, {<<>>})
+\* two uses of the same macro with different fillers, and a template value as structured content
+MetalExtra == {<<MacroEl(<<>>, <<>>), UseEl(P("macros/m1"), <<>>, <<Fill1(<<>>)>>), UseEl(P("macros/m1"), <<>>, <<Fill2>>),
             El("q", <<>>, <<CContent(P("macros/m1"), st)>>, <<TextN("o")>>),
             El("p", <<>>, <<CRepeat("x", P("lst"))>>, <<UseEl(P("macros/m1"), <<>>, <<Fill1(<<CContent(P("x"), FALSE)>>)>>)>>)>> : st \in {TRUE}}
 
